@@ -209,10 +209,19 @@ class EndpointMethodGenerator:
 
             writer.dedent()
 
-        # Add else clause for error
+        # No content argument supplied: an error when the body is required, a request without body when it is optional
         writer.write_line("else:")
         writer.indent()
-        writer.write_line('raise ValueError("One of the content-type parameters must be provided")')
+        if op.request_body.required:
+            writer.write_line('raise ValueError("One of the content-type parameters must be provided")')
+        else:
+            writer.write_line("response = await self._transport.request(")
+            writer.indent()
+            writer.write_line(f'"{op.method.value.upper()}", url,')
+            writer.write_line(params_arg)
+            writer.write_line(headers_arg)
+            writer.dedent()
+            writer.write_line(")")
         writer.dedent()
         writer.write_line("")
 
